@@ -65,7 +65,8 @@ func (its *OrdaService) PatchDocument(goCtx gocontext.Context, req *model.PatchM
 		return nil, errors.NewRPCError(errors.ServerBadRequest.New(ctx.L(), err.Error()))
 	}
 
-	if len(patches) > 0 {
+	// an absent document is created even when the target is the empty object (no patch to apply)
+	if len(patches) > 0 || datatypeDoc.DUID == "" {
 		ppp := doc.(iface.Datatype).CreatePushPullPack()
 		ctx.L().Infof("%v", ppp.ToString(true))
 
